@@ -64,16 +64,17 @@ struct CheckerCfg { int key; jwt_alg_t alg; int cb; bool iss; long exp_lee; };
 static const CheckerCfg CCFG[] = {{-1, JWT_ALG_NONE, VCB_NONE, false, 0}, {1, JWT_ALG_NONE, VCB_NONE, false, 0}, {0, JWT_ALG_HS256, VCB_NONE, true, 0}, {4, JWT_ALG_NONE, VCB_NONE, false, -1}, {3, JWT_ALG_ES256, VCB_MUTATE, false, 0},
                                   {-1, JWT_ALG_NONE, VCB_FAIL, false, 0}, {-1, JWT_ALG_NONE, VCB_SELECT, false, 0}, {1, JWT_ALG_NONE, VCB_FAIL, true, 0}, {5, JWT_ALG_HS256, VCB_NONE, false, 0}, {6, JWT_ALG_NONE, VCB_NONE, false, 0}, {7, JWT_ALG_HS512, VCB_NONE, false, 5}, {2, JWT_ALG_HS256, VCB_NONE, false, 0},
                                   {-1, JWT_ALG_NONE, VCB_ALG_ONLY, false, 0}, {-1, JWT_ALG_NONE, VCB_MISMATCH, false, 0}, {-1, JWT_ALG_NONE, VCB_KEY_NOALG, false, 0}, {1, JWT_ALG_NONE, VCB_MISMATCH, true, 0}, {1, JWT_ALG_NONE, VCB_ALG_ONLY, false, -1}, {-1, JWT_ALG_NONE, VCB_KID, false, 0},
-                                  {100, JWT_ALG_ES256, VCB_NONE, false, 0}, {101, JWT_ALG_RS256, VCB_NONE, false, 0}, {102, JWT_ALG_EDDSA, VCB_NONE, false, 0}, {103, JWT_ALG_NONE, VCB_NONE, true, 0}, {101, JWT_ALG_PS256, VCB_MUTATE, false, -1}};   // keys >= 100: flagged items
-static const int NCCFG = 23;
+                                  {100, JWT_ALG_ES256, VCB_NONE, false, 0}, {101, JWT_ALG_RS256, VCB_NONE, false, 0}, {102, JWT_ALG_EDDSA, VCB_NONE, false, 0}, {103, JWT_ALG_NONE, VCB_NONE, true, 0}, {101, JWT_ALG_PS256, VCB_MUTATE, false, -1},   // keys >= 100: flagged items
+                                  {-2, JWT_ALG_NONE, VCB_KEY_NOALG, false, 0}, {200, JWT_ALG_NONE, VCB_NONE, false, 0}, {200, JWT_ALG_RS256, VCB_NONE, true, 0}};   // -2: the callback hands out a key with an unknown alg attribute; 200: such a key by setkey
+static const int NCCFG = 26;
 
 static jwt_checker_t *mk_checker(const CheckerCfg &c, VCtx *cx) {
   jwt_checker_t *ch = jwt_checker_new();
-  if (c.key >= 0 || c.alg != JWT_ALG_NONE) jwt_checker_setkey(ch, c.alg, c.key >= 100 ? flagged_item(c.key - 100) : c.key >= 0 ? keytab()[c.key].lk->item : nullptr);
+  if (c.key >= 0 || c.alg != JWT_ALG_NONE) jwt_checker_setkey(ch, c.alg, c.key == 200 ? unknown_alg_key() : c.key >= 100 ? flagged_item(c.key - 100) : c.key >= 0 ? keytab()[c.key].lk->item : nullptr);
   jwt_checker_error_clear(ch);
   if (c.iss) jwt_checker_claim_set(ch, JWT_CLAIM_ISS, "issuer");
   jwt_checker_time_leeway(ch, JWT_CLAIM_EXP, c.exp_lee);
-  cx->kind = c.cb; if (c.cb != VCB_NONE) jwt_checker_setcb(ch, checker_cb, cx);
+  cx->kind = c.cb; cx->other = c.key == -2; if (c.cb != VCB_NONE) jwt_checker_setcb(ch, checker_cb, cx);
   return ch;
 }
 
